@@ -194,3 +194,19 @@ Theorem C01_mapor_kmn_converge (H : list (oprec (mop oop))) :
   forall (s1 s2 : cmap orswot) (K : gset nat), moreach_kmn H s1 K -> moreach_kmn H s2 K -> s1 = s2.
 Proof. exact (mapor_converge_kmn H). Qed.
 Print Assumptions C01_mapor_kmn_converge.
+
+(** Map<K, MVReg> (MVReg leaves) WITHOUT key removes, op-based replication (no state merges), per-actor delivery with duplicates (in particular causal delivery): equal knowledge gives the same key layer and, under every key, the same values (proofs/MapMVRegNK.v) *)
+From Crdt Require Import model.MVReg model.Map spec.System spec.OrswotSpec spec.OrswotSystem spec.Specs spec.MapSpec spec.MapSystem spec.MapMVRegSpec proofs.MapMVRegNK.
+Theorem C01_mapmv_converge_nk (H : list (oprec (mop mvop))) :
+  mvhist_ok_nk H -> forall (s1 s2 : cmap (list (gmap N N * N))) (K : gset nat), mvreach_nk H s1 K -> mvreach_nk H s2 K ->
+    kabs s1 = kabs s2 /\
+    (forall k, mv_state_vals s1 k ≡ₚ mv_state_vals s2 k) /\
+    (forall k, rval (mvread (mv_state_vals s1 k)) ≡ₚ rval (mvread (mv_state_vals s2 k))).
+Proof. exact (mapmv_converge_nk H). Qed.
+Print Assumptions C01_mapmv_converge_nk.
+
+Theorem C01_mapmv_values_refine_causal (H : list (oprec (mop mvop))) :
+  mvhist_ok_nk_causal H -> forall (s : cmap (list (gmap N N * N))) (K : gset nat), mvreach_nk_causal H s K ->
+    forall k, mv_state_vals s k ≡ₚ mv_maximal (mv_writes (mv_proj (known_ops H K) k)).
+Proof. exact (mapmv_values_refine_nk_causal H). Qed.
+Print Assumptions C01_mapmv_values_refine_causal.
